@@ -550,3 +550,41 @@ impl Subset {
         Subset::Dense(OffsetRange::new(RowId::new(0), RowId::new(0)))
     }
 }
+
+/// Verification hook H6 (compiled only with `--cfg egglog_verif`; add-only, no behaviour change):
+/// plain-integer entry points to the private search routines of [`SortedOffsetSlice`].
+#[cfg(egglog_verif)]
+pub mod verif_hooks {
+    use super::{RowId, SortedOffsetSlice};
+    use crate::numeric_id::NumericId;
+
+    fn rows(slice: &[u32]) -> Vec<RowId> {
+        assert!(
+            slice.windows(2).all(|w| w[0] <= w[1]),
+            "slice is not sorted"
+        );
+        slice.iter().map(|&x| RowId::new(x)).collect()
+    }
+
+    /// `scan_for_offset(start, target)` on the sorted `slice`, for every `(start, target)` query.
+    pub fn scan_for_offset(slice: &[u32], queries: &[(usize, u32)]) -> Vec<Result<usize, usize>> {
+        let rows = rows(slice);
+        // SAFETY: `rows` is sorted (checked above).
+        let s = unsafe { SortedOffsetSlice::new_unchecked(&rows) };
+        queries
+            .iter()
+            .map(|&(start, target)| s.scan_for_offset(start, RowId::new(target)))
+            .collect()
+    }
+
+    /// `binary_search_from(start, target)` on the sorted `slice`, for every `(start, target)` query.
+    pub fn binary_search_from(slice: &[u32], queries: &[(usize, u32)]) -> Vec<usize> {
+        let rows = rows(slice);
+        // SAFETY: `rows` is sorted (checked above).
+        let s = unsafe { SortedOffsetSlice::new_unchecked(&rows) };
+        queries
+            .iter()
+            .map(|&(start, target)| s.binary_search_from(start, RowId::new(target)))
+            .collect()
+    }
+}
